@@ -442,7 +442,9 @@ def xprograms(family, tagbase, shard=0, of=1, slice_of=1, slice_ix=0):
     if family in ('proxy2', 'proxy3', 'proxy2T'):
         n = int(family[5])
         pool = XPOOLS['px' + family[5:]]
-        outs = {2: ['last', 'each', 'list'], 3: ['last', 'each']}[n]
+        outs = {'proxy2': ['last', 'each', 'list'],
+                'proxy2T': ['last', 'each'],
+                'proxy3': ['last', 'each']}[family]
 
         def rec(k, prefix):
             if k == n - 1:
